@@ -36,6 +36,8 @@ func main() {
 		out = transVars(os.Args[2:])
 	case "misc":
 		out = transMisc(os.Args[2:])
+	case "sites":
+		out = transSites(os.Args[2:])
 	default:
 		fail("unknown mode %q", os.Args[1])
 	}
